@@ -223,7 +223,8 @@ PROPS = {
     "C01": dict(pool_prop([], ["Reach-level theorems assume gRPC's contract (RunOk: Shutdown is reported only for removed connections)"]),
                 theorems=pool_thms(["bound_ready_home", "bound_notready_no_fallback", "unknown_key", "bind_bound_key_noop", "bind_new_key", "unbind_removes", "unbind_other", "lookup_preserves_binding"]) +
                 [("GcpVerif.Proofs.PoolKeys", "GcpVerif.Pool." + n) for n in ["bound_key_in_pool", "binding_stable", "keyed_run", "stable_swap"]] +
-                [("GcpVerif.Proofs.PoolAffinity", "GcpVerif.Pool." + n) for n in ["bound_stays", "bound_pick_home", "bound_call_travels_home", "stable_step_key"]]),
+                [("GcpVerif.Proofs.PoolAffinity", "GcpVerif.Pool." + n) for n in ["bound_stays", "bound_pick_home", "bound_call_travels_home", "stable_step_key"]] +
+                [("GcpVerif.Proofs.Ties", "GcpVerif.Ties.bind_reads_subconn_under_lock")]),
     "C02": dict(pool_prop([], ["placement and increment are one atomic step of the model: for picks on one picker this is the picker mutex held exclusively around the scan (per-run obligation c02_scan_exclusive on the regenerated access table; the pick2 operation of the harness runs two picks concurrently with the balancer lock stalled and the model must explain the outcome by some order of two atomic picks); picks on different pickers may interleave scan and increment"]),
                 theorems=pool_thms(["streams_exact", "streams_nonneg", "streams_zero_when_idle", "run_inv", "leastBusy_spec", "leastBusy_first_on_tie", "below_watermark_places"]) +
                 [("GcpVerif.Proofs.PickAtomic", "GcpVerif.Sync.c02_scan_exclusive"), ("GcpVerif.Proofs.PickAtomic", "GcpVerif.Sync.c02_scan_present")] +
